@@ -383,7 +383,10 @@ def step(ctx, st, op, H):
         fault = copy.deepcopy(op.get("fault"))
         view = saved_view(rec)
         if fault:
-            size = len(json.dumps(rec._to_dict()))
+            dry = SimFS(SimDisk(), None)               # dry run on a scratch disk: how long is this write?
+            with Patched(dry, modules=(__import__("hvsrpy.seismic_recording_3c", fromlist=["x"]),)):
+                rec.save(path)
+            size = len(dry.read_bytes(path))
             fault["at"] = min(max(0, int(fault["frac"] * size)), size - 1)
             fault["path"] = path
             st.fs.arm(fault)
